@@ -11,6 +11,7 @@ import (
 	"time"
 
 	"github.com/grafana/dskit/kv/memberlist"
+	"github.com/grafana/dskit/services"
 	"github.com/grafana/dskit/ring"
 	"github.com/grafana/dskit/zzverif/sim"
 )
@@ -109,6 +110,18 @@ func runGossip(s *sim.Sim, o gopts) {
 		}
 		raw, _ := nd.raw(ringKey).(*ring.Desc)
 		vis, _ := nd.visible(ringKey).(*ring.Desc)
+		// C06 "a queued update is superseded only by an update that contains it": every change a node accepts is
+		// queued for (re)broadcast and leaves the queue only after it was handed out or when a queued update that
+		// contains it took its place; hence, whenever both queues are empty, somebody who has heard everything the
+		// node has said knows everything the node stores.
+		if l, g := nd.kv.SimQueued(); l == 0 && g == 0 && nd.kv.State() == services.Running {
+			for _, key := range []string{ringKey, ring2Key, partKey} {
+				if news := nd.unsaid(key); len(news) > 0 {
+					s.Fail("stored-news-never-broadcast", "", "after %s: the broadcast queues of node %s are empty, yet what it stores under %q holds news about %v for a listener of all its %s broadcasts; stored: %s; said so far: %s", what, nd.name, key, news, nd.name, nd.rawCanon(key), canonValue(nd.emitted[key], true))
+				}
+			}
+			s.Probe("said-vs-stored-compared")
+		}
 		// readers never see tombstones
 		if vis != nil {
 			for id, e := range vis.Ingesters {
